@@ -43,9 +43,11 @@ type globalInfo struct {
 	kinds    map[int64]*Layout // layout per known cell
 }
 
+var repoRoot = "/repo"
+
 func relPath(p string) string {
-	if strings.HasPrefix(p, "/repo/") {
-		return p[6:]
+	if strings.HasPrefix(p, repoRoot+"/") {
+		return p[len(repoRoot)+1:]
 	}
 	return p
 }
@@ -67,6 +69,7 @@ func newEngine(repo string, config string, patterns []string) (*Engine, error) {
 	if !ok {
 		return nil, fmt.Errorf("unknown config %q", config)
 	}
+	repoRoot = repo
 	e := &Engine{repo: repo, fset: token.NewFileSet(), pkgDir: map[string]string{}, contracts: map[string]*Contract{},
 		pures: map[string]*PureFn{}, ufs: map[string]*UF{}, funcIDs: map[*ssa.Function]int{}, typeTags: map[string]int{},
 		frames: map[*ssa.Function][]frameEntry{}, frameBusy: map[*ssa.Function]bool{}, constGlob: map[*ssa.Global]*globalInfo{}, config: config}
